@@ -88,7 +88,3 @@ func generateLemma(g *Global, lm *Lemma) (res *FuncResult) {
 	}
 	return res
 }
-
-func tryReplay(g *Global, r *OblResult, dir string) *ReplayResult {
-	return nil
-}
